@@ -134,6 +134,7 @@ PLAN = {
                    T("elem_all", (2500, 8000), (12, 14), "std"), T("elem_all", (2500, 8000), (12, 14), "nostd"),
                    T("frac", (100, 2000), (2, 4), "std"), T("frac", (100, 2000), (2, 4), "nostd"),
                    T("arith_rem", (150, 3000), (4, 8), "std"), T("arith_rem", (150, 3000), (4, 8), "nostd"),
+                   T("exp_nodes", (8, 14), (8, 14), "std"), T("exp_nodes", (8, 14), (8, 14), "nostd"),
                    T("arith_div", (100, 2000), (2, 6), "std"), T("arith_div", (100, 2000), (2, 6), "nostd"),
                    T("arith_mul", (100, 2000), (2, 6), "std"), T("arith_mul", (100, 2000), (2, 6), "nostd"),
                    T("arith_add", (100, 2000), (2, 6), "std"), T("arith_add", (100, 2000), (2, 6), "nostd"),
@@ -142,7 +143,7 @@ PLAN = {
         "merge": [{"family": "arith_all", "variants": ["std", "nostd"]}, {"family": "arith_new", "variants": ["std", "nostd"]},
                   {"family": "elem_all", "variants": ["std", "nostd"]}, {"family": "frac", "variants": ["std", "nostd"]},
                   {"family": "conv", "variants": ["std", "nostd"]}, {"family": "fma", "variants": ["std", "nostd"]},
-                  {"family": "arith_rem", "variants": ["std", "nostd"]}, {"family": "arith_div", "variants": ["std", "nostd"]},
+                  {"family": "arith_rem", "variants": ["std", "nostd"]}, {"family": "exp_nodes", "variants": ["std", "nostd"]}, {"family": "arith_div", "variants": ["std", "nostd"]},
                   {"family": "arith_mul", "variants": ["std", "nostd"]}, {"family": "arith_add", "variants": ["std", "nostd"]}],
     },
     "C12": {
